@@ -97,6 +97,12 @@ CLAIMED = {
         text="Random environments (hostile names and values, 1..3 planted random secrets) are the complete environment of real `ucg build` / `ucg --no-strict build` runs: every set variable must read back exactly through out json, an unset one must fail naming it in strict mode and be NULL otherwise, no secret value may appear in any output, `let env` must be rejected and fields/selectors named env must keep meaning the field.",
         note="Trusted: subprocess env passing; a secret counts as disclosed when its 32 hex digits occur in stdout or stderr.",
         design="DESIGN.md section 4, C18"),
+    "C19": dict(
+        engine="probe",
+        technique="runtime monitor: reference-model oracle (one short Python definition per helper, written from the stdlib docs) on results of generated files that import std/*.ucg and are built by checker + VM; documented laws checked as such",
+        text="About forty helper entry points of std/lists, tuples, strings, functional and schema are called with random lists, tuples with NULLs, ASCII/Unicode strings, 1..3-character separators and every in-range/boundary index pair in generated files built through the type checker and the VM; results must equal the Python reference, and reverse-involution, zip truncation, inclusive slices and split_on/str_join restoration must hold.",
+        note="Trusted: my reference definitions (vf/props/c19.py); out-of-range arguments are judged only where the docs define the result.",
+        design="DESIGN.md section 4, C19"),
     "C17": dict(
         engine="probe",
         technique="runtime monitor: span oracle from my layout engine on single-fault programs (primary position inside the faulty statement, VIA inside the caller) + metamorphic line-shift check; eval, build and CLI",
